@@ -270,6 +270,27 @@ theorem bfMayBe_eq_idx (wsp : Nat → Bool) (pos : Nat → List Nat) (c : BCond)
     funext n; by_cases h : n = 0 <;> simp [h]
   simp only [lineHit_eq_lineHitK, h1]
 
+/-- **I2'** detached (OBS) layout: for a block that has a filter — in a vertical group of the
+remote file or in the local line file — the reader answers as the attached one, so
+`multi_column_bloom_sound` carries over. -/
+theorem detached_bloom_sound (nv nl j : Nat) (hj : j < nv + nl)
+    (wsp : Nat → Bool) (pos : Nat → List Nat) (schema : List Nat) (hne : schema ≠ [])
+    (ftCols : List Nat) (c : BCond) (seg : Seg) (row : Row)
+    (hwf : WFB c) (hcov : OwnCovered wsp ftCols c seg) (hrow : row ∈ seg) (hs : rowSatR ftCols row c) :
+    bfMayBeDetached nv nl j wsp pos schema c seg = some (some true) := by
+  unfold bfMayBeDetached
+  rw [if_neg (by omega)]
+  exact multi_column_bloom_sound wsp pos schema hne ftCols c seg row hwf hcov hrow hs
+
+/-- … and the hypothesis is needed: a block past the filters of both files is answered "no"
+whatever it holds (`FilterReader.IsExist`: `blockId >= verticalFilterCount+filterLogCount`). -/
+theorem detached_block_without_filter_pruned :
+    rowSatR [] [some [97, 108]] (mpOn 0 [97, 108]) ∧
+    bfMayBeDetached 0 1 1 contentSplit posV3 [0] (mpOn 0 [97, 108]) [[some [97, 108]]] = some (some false) := by
+  constructor
+  · show atomHoldsR [] _ 0 _ = true; decide
+  · decide
+
 /-! ## 4. `Scan` returns well-formed ranges; readers chained -/
 
 /-- accumulator of `Scan` (head = last range): ranges non-empty-or-equal, descending, below `B`. -/
